@@ -339,6 +339,14 @@ int main(int argc, char *argv[])
   if (create_list == 1)
   {
     char filename[1024];
+
+    // Room for the name, ".lst" and the terminator.
+    if (strlen(outfile) + 5 > sizeof(filename))
+    {
+      printf("\nError: Output file name is too long for a listing.\n\n");
+      exit(1);
+    }
+
     strcpy(filename, outfile);
 
     new_extension(filename, "lst", 1024);
